@@ -1860,6 +1860,12 @@ def _single_use_test_temp(stmts, loads=None):
                 _replace_node(nxt, uses[0], s.value)
                 i += 1
                 continue
+        if isinstance(s, ast.Assign) and len(s.targets) == 1 and isinstance(s.targets[0], ast.Name) and isinstance(nxt, ast.For) and isinstance(nxt.iter, ast.Name) and nxt.iter.id == s.targets[0].id \
+                and loads is not None and loads.get(s.targets[0].id, 0) == 1 and loads.get("\0names", {}).get(s.targets[0].id, 0) == 2:
+            # t = <expr>; for x in t: ...   (t named for nothing else)
+            nxt.iter = s.value
+            i += 1
+            continue
         if isinstance(s, ast.Assign) and len(s.targets) == 1 and isinstance(s.targets[0], ast.Name) and isinstance(nxt, ast.If):
             v = s.targets[0].id
             uses_in_test = [n for n in ast.walk(nxt.test) if isinstance(n, ast.Name) and n.id == v]
